@@ -1,7 +1,12 @@
 import os
 import pkgutil
 
-from ckl.errors import CklRuntimeError, CklSyntaxError
+from ckl.errors import (
+    CklRuntimeError,
+    CklSyntaxError,
+    HOST_ERRORS,
+    as_runtime_error,
+)
 from ckl.values import (
     Args,
     Value,
@@ -238,11 +243,13 @@ class NodeBlock:
                     break
                 if result.isContinue():
                     break
-        except CklRuntimeError as e:
+        except (CklRuntimeError,) + HOST_ERRORS as e:
+            if not isinstance(e, CklRuntimeError):
+                e = as_runtime_error(e, self.pos)
             for err, expr in self.catchexprs:
                 if not err or e.value == err.evaluate(environment):
                     return expr.evaluate(environment)
-            raise
+            raise e
         finally:
             for expression in self.finallyexprs:
                 expression.evaluate(environment)
